@@ -72,7 +72,7 @@ func traversalClosures(p *Prog) []*ssa.Function {
 			if goT[f] {
 				tasks = append(tasks, f)
 			}
-		} else if goT[f] && (c02ReachesStatic(f, 2, func(in ssa.Instruction) bool { return c02IsCallTo(in, nGo) }) || c02ClosureBody(f) != nil) {
+		} else if goT[f] && (c02ReachesStatic(f, 2, func(in ssa.Instruction) bool { return c02IsCallTo(in, nGo) }) || c02ClosureBody(f) != nil || c02StepTable(f) != nil) {
 			tasks = append(tasks, f)
 		}
 	}
@@ -157,6 +157,10 @@ func c02R1R4(c *Ctx) {
 	c.Expect("C02.R1.done-implies-present", 1)
 	for _, T0 := range ts {
 		c02DonePresent(c, T0)
+		if st := c02StepTable(T0); st != nil && len(c02DispatchedSlices(T0)) == 0 && c02ClosureBody(T0) == nil {
+			c02R1StepTable(c, T0, st)
+			continue
+		}
 		// the function that dispatches the successors and pushes the node: the
 		// traversal function itself, or the helper it hands the claimed node to
 		T := c02DispatchBody(T0, 2)
